@@ -120,8 +120,9 @@ def _cphase_symbols_to_sqrt_iswap(
     # For sign = 1: theta. For sign = -1, 2pi-theta
     theta_prime = (sympy.pi - sign * sympy.pi) + sign * theta
 
-    phi = sympy.asin(np.sqrt(2) * sympy.sin(theta_prime / 4))
-    xi = sympy.atan(sympy.tan(phi) / np.sqrt(2))
+    # theta_prime is in [0, pi]; the clamp keeps rounding at pi from leaving asin's domain.
+    phi = sympy.asin(sympy.Min(1, np.sqrt(2) * sympy.sin(theta_prime / 4)))
+    xi = sympy.atan2(sympy.sin(phi), np.sqrt(2) * sympy.cos(phi))
 
     yield ops.rz(sign * 0.5 * theta_prime).on(a)
     yield ops.rz(sign * 0.5 * theta_prime).on(b)
